@@ -62,9 +62,9 @@ func c09Spaces(tier string) []*explore.Space {
 		func(e gen.Expr) gen.Expr { return gen.F("lower-case", e) },
 		func(e gen.Expr) gen.Expr { return gen.F("string", e) },
 	}
-	depth := 3
+	depth := 4
 	if tier == "thorough" {
-		depth = 4
+		depth = 5
 	}
 	var f3 []gen.Expr
 	var rec func(e gen.Expr, d int)
@@ -98,9 +98,9 @@ func c09Spaces(tier string) []*explore.Space {
 		}
 	}
 	f4 = append(f4, gen.F("string"), gen.F("normalize-space")) // string-length() without argument is deliberately rejected by Compile and outside the property
-	n := 2
+	n := 3
 	if tier == "thorough" {
-		n = 3
+		n = 4
 	}
 	vals := []string{"ab", "", " a  b ", "B"}
 	docs := func() []*doc.Tree { return uniV(n, vals) }
@@ -115,7 +115,7 @@ func c09Spaces(tier string) []*explore.Space {
 func init() {
 	explore.Register(&explore.Property{
 		ID: "C09", Level: "exploration",
-		Rule: "every string function of the property x every argument tuple over a 12-string ASCII alphabet (empty, blanks, tabs/newlines, mixed case), substring over the complete 12x16x17 cube of (string, start, length) incl. negative/fractional/huge numbers, all chains of <= 3 (thorough: 4) unary string wrappers, and flat node-set arguments on every document of a value universe from every context node, compared with the reference string/number/boolean; distinct = distinct expressions",
+		Rule: "every string function of the property x every argument tuple over a 12-string ASCII alphabet (empty, blanks, tabs/newlines, mixed case), substring over the complete 12x16x17 cube of (string, start, length) incl. negative/fractional/huge numbers, all chains of <= 4 (thorough: 5) unary string wrappers, and flat node-set arguments on every document of a value universe from every context node, compared with the reference string/number/boolean; distinct = distinct expressions",
 		Assumptions:    []string{"hand-written reference string functions (XPath 1.0 §4.2, F&O for the three 2.0 functions)", "ASCII only", "bounded alphabets"},
 		Budget:         budget(55*time.Second, 10*time.Minute),
 		MinRefOutcomes: 2,
